@@ -378,12 +378,8 @@ pub fn load_auth_from_json(value: &serde_json::Value) -> Result<Authorisation> {
                 .to_string();
             let mutate_self = right_map.get("mutate_self").unwrap().as_bool().unwrap();
             let mutate_all = right_map.get("mutate_all").unwrap().as_bool().unwrap();
-            let right = EntityRight {
-                valid_from,
-                entity,
-                mutate_self,
-                mutate_all,
-            };
+            //same normalisation as every other construction path: mutate_all implies mutate_self
+            let right = EntityRight::new(valid_from, entity, mutate_self, mutate_all);
             authorisation.add_right(right)?;
         }
     }
